@@ -81,7 +81,7 @@ B2S(b) == IF b THEN "T" ELSE "F"
 
 (***************************************************************************)
 (* Step(src, st, U, s): one statement s = [op, k, x] on a site.            *)
-(* Returns [st, res, miss, inc]: res in {"T","F","TE","-"}; miss/inc =     *)
+(* Returns [st, res, miss, inc]: res in {"T","F","TE","UE","-"}; miss/inc = *)
 (* increments of the per-test counters.                                    *)
 (***************************************************************************)
 Step(src, st, U, s) ==
@@ -90,6 +90,10 @@ Step(src, st, U, s) ==
       o  == s.op
   IN
   IF o = "none" THEN [st |-> [st EXCEPT !.ev = TRUE], res |-> "-", miss |-> 0, inc |-> 0]
+  ELSE IF o = "chg" THEN
+     \* the call is evaluated again and its hand-written argument now has another value: a usage error,
+     \* nothing is recorded (generic_value.py:_re_eval); on a first evaluation it simply is the value
+     [st |-> st, res |-> IF st.ev THEN "UE" ELSE "-", miss |-> 0, inc |-> 0]
   ELSE IF st.kind # "undecided" /\ st.kind # (IF o \in {"deq", "dle", "dge"} THEN "dict" ELSE o)
        THEN [st |-> [st EXCEPT !.ev = TRUE], res |-> "TE", miss |-> 0, inc |-> 0]
   ELSE IF o \in ScalarOps THEN
@@ -192,7 +196,7 @@ RunTest(srcs, U, test, j, tr) ==
        IN RunTest(srcs, U, test, j + 1,
             [sts |-> [tr.sts EXCEPT ![s.site] = q.st],
              miss |-> tr.miss + q.miss, inc |-> tr.inc + q.inc,
-             aborted |-> q.res = "TE" \/ (s.assert /\ q.res = "F"),
+             aborted |-> q.res \in {"TE", "UE"} \/ (s.assert /\ q.res = "F"),
              res |-> Append(tr.res, q.res)])
 
 \* run all tests: returns [sts, tests] where tests[t] = [res, miss, inc, aborted, failed]
